@@ -455,7 +455,7 @@ def check(run, replay_path=None):
     fault_family(run)
 
 
-def fault_family(run, family=None, num=None, prefixes=('R:', 'L:', 'Q:'), with_model=True, seed_offset=0):
+def fault_family(run, family=None, num=None, prefixes=('R:', 'L:', 'Q:', 'B:'), with_model=True, seed_offset=0):
     """The fault-delivery sessions; `family`: only these clauses are reported (C11 reuses the sessions for lookups_agree
     with a cover of the deliveries whose description report has a part that is rejected after another was applied)."""
     if with_model:
@@ -483,7 +483,19 @@ def fault_family(run, family=None, num=None, prefixes=('R:', 'L:', 'Q:'), with_m
     if not purpose:
         raise MachineryError('test purpose part-rejected-after-update-part is not reachable in Mirror.tla')
     purpose.sort(key=lambda b: (len(b), str(b)))
-    behs = purpose[:run.pick(6, 60)] + behs
+    # test purposes for loads: a shortest history for every situation of a load (what was buffered / arrived late,
+    # relative to the snapshot: old, news, other epoch - also with a higher MdibVersion than the snapshot).  Random
+    # simulation reaches a complete load with traffic in it far too rarely.
+    res = run_tlc('MirrorMC', 'Mirror_loadpurpose.cfg', workers=1, timeout=3000)
+    run.add_tlc(res)
+    loads = json_lines(res.stdout, 'BEH')
+    need = {'B:buffered:state:otherepoch-higher-version', 'B:buffered:state:news', 'B:buffered:descr:news',
+            'L:late:state:news:0'}
+    got = {lab for b in loads for r in b for lab in r.get('sit', [])}
+    if not need <= got:
+        raise MachineryError(f'load purposes not reached in Mirror.tla: {sorted(need - got)}')
+    run.note('load_purposes', {'histories': len(loads), 'situations': len({x for x in got if x[:2] in ('B:', 'L:')})})
+    behs = purpose[:run.pick(6, 60)] + loads + behs
     variants = [dict(), dict(async_mgr=True)]
     traces = []
     handovers = 0
